@@ -1,65 +1,50 @@
 (* Properties_C05_iff.v — property C05 (arbitrary input never crashes, reads or writes out of bounds),
    lys_compile_iffeature() part: theorem statements only. Model: IfFeature.v (every access of the three
-   heap blocks and of the input string answers IOob outside the extent); proofs: IfFeatureP.v. *)
+   heap blocks and of the input string answers IOob outside the extent); proofs: IfFeatureP.v.
+
+   History: an earlier version of the code (and of the model) left its arrays on `not (not a)`, `)a(`,
+   `a )(` and `()not not b` (SIGSEGV); this file then held a ..._refuted theorem with these witnesses and a
+   ..._partial theorem under three side conditions on the string. The defects were fixed in /repo commits
+   299b7de (last_not reset at parentheses), 6f66310 (negative parenthesis depth rejected at once) and
+   685c1af (main pass splits words at `)` too). The model transcribes the fixed code and the property now
+   holds at full strength, without any side condition. *)
 From LY Require Import Base IfFeature IfFeatureP.
 Local Open Scope N_scope.
 
-(* iffeature_no_oob at full strength: for EVERY byte string (taken as a C string), every module version
-   and every feature lookup, the compiler stays inside its arrays. FALSE for the code as it is. *)
-Definition iffeature_no_oob_statement : Prop :=
-  forall lookup v11 s, len_ok (cstr s) -> compile_c lookup v11 s <> IOob.
-
-(* witnesses (all crash the real code): `not (not a)`  `)a(`  `a )(`  `()not not b` *)
-Theorem C05_iffeature_no_oob_refuted :
-  compile_c lookup_abc true w_not_paren = IOob /\ compile_c lookup_abc true w_neg_depth = IOob /\
-  compile_c lookup_abc true w_neg_depth2 = IOob /\ compile_c lookup_abc true w_rp_word = IOob.
-Proof. vm_compute. repeat split. Qed.
-Print Assumptions C05_iffeature_no_oob_refuted.
-
-Theorem C05_iffeature_no_oob_statement_false : ~ iffeature_no_oob_statement.
-Proof.
-  intro H. apply (H lookup_abc true w_not_paren).
-  - unfold len_ok. cbn. lia.
-  - apply C05_iffeature_no_oob_refuted.
-Qed.
-Print Assumptions C05_iffeature_no_oob_statement_false.
-
-(* iffeature_no_oob under three side conditions on the string, each an executable check:
-     depth_nonneg         reading left to right the parenthesis depth never drops below zero,
-     not_cancel_adjacent  the pre-pass cancels a `not` only against the directly preceding `not`
-                          (never across a parenthesis),
-     rp_sep               no `)` is directly followed by a word character.
-   For every such string — grammatical or not — every lookup function and both module versions the
-   compiler never leaves the expression array, the features array, the operator stack or the string,
-   terminates within the model's fuel, and never requests an absurd allocation. *)
-Theorem C05_iffeature_no_oob_partial :
+(* iffeature_no_oob at full strength: for EVERY byte string (taken as a C string: it ends at its first
+   NUL; grammatical or not), both module versions and every feature lookup function, the compiler never
+   leaves the expression array, the features array, the operator stack or the string (IOob also covers
+   the two assert()ed conditions of iff_stack_pop and a pop from an empty stack), terminates within the
+   model's fuel, and never requests an absurd allocation. The only hypothesis is that the string fits a
+   C object (length < 2^62), so that the 64-bit counters cannot wrap on their own. *)
+Theorem C05_iffeature_no_oob :
   forall lookup v11 s, len_ok (cstr s) ->
-    depth_nonneg (cstr s) 0 = true -> not_cancel_adjacent (cstr s) = true -> rp_sep (cstr s) = true ->
     compile_c lookup v11 s <> IOob /\ compile_c lookup v11 s <> IErr E_FUEL /\ compile_c lookup v11 s <> IErr E_MEM.
-Proof. exact compile_c_no_oob_partial. Qed.
-Print Assumptions C05_iffeature_no_oob_partial.
+Proof. exact compile_c_no_oob. Qed.
+Print Assumptions C05_iffeature_no_oob.
 
-(* none of the three conditions can be dropped: for each there is a crashing input that violates only it *)
-Theorem C05_iffeature_conditions_independent :
-  (depth_nonneg w_not_paren 0, not_cancel_adjacent w_not_paren, rp_sep w_not_paren) = (true, false, true) /\
-  (depth_nonneg w_neg_depth2 0, not_cancel_adjacent w_neg_depth2, rp_sep w_neg_depth2) = (false, true, true) /\
-  (depth_nonneg w_rp_word 0, not_cancel_adjacent w_rp_word, rp_sep w_rp_word) = (true, true, false).
+(* regression: the four former crash witnesses `not (not a)`  `)a(`  `a )(`  `()not not b`. The first is
+   grammatical and now compiles to NOT NOT F; the two with a negative parenthesis depth are rejected with
+   LY_EVALID; the last one is (leniently) accepted as `b`: both passes now see the words not, not, b *)
+Example C05_former_witnesses :
+  compile_c lookup_abc true w_not_paren = IOk ([48], [Some [97]], 1) /\
+  compile_c lookup_abc true w_neg_depth = IErr E_PAREN /\
+  compile_c lookup_abc true w_neg_depth2 = IErr E_PAREN /\
+  compile_c lookup_abc true w_rp_word = IOk ([3], [Some [98]], 1).
 Proof. vm_compute. repeat split. Qed.
-Print Assumptions C05_iffeature_conditions_independent.
 
-(* the conditions are sufficient, not necessary: `not (not not a)` violates the second one and compiles *)
-Example C05_conditions_not_necessary :
-  let s := [110;111;116;32;40;110;111;116;32;110;111;116;32;97;41] in
-  not_cancel_adjacent s = false /\ compile_c lookup_abc true s = IOk ([12], [Some [97]], 1).
-Proof. vm_compute. split; reflexivity. Qed.
-
-(* the hypotheses are satisfiable by non-trivial strings, accepted and rejected ones:
-   `not (a and not b) or ((c))` compiles, `(a and) not x (` is rejected *)
+(* the statement is not vacuous: accepted and rejected strings, grammatical and ungrammatical ones.
+   `not (a and not b) or ((c))` compiles, `(a and) not x (` is rejected (parentheses),
+   `not (not not a)` compiles to NOT F, the ungrammatical `not () not b` passes the pre-pass, the main
+   pass then writes fewer records than allocated and the final check answers LY_EINT (E_PROC) *)
 Example C05_hypotheses_satisfiable :
   let s1 := [110;111;116;32;40;97;32;97;110;100;32;110;111;116;32;98;41;32;111;114;32;40;40;99;41;41] in
   let s2 := [40;97;32;97;110;100;41;32;110;111;116;32;120;32;40] in
-  (depth_nonneg (cstr s1) 0, not_cancel_adjacent (cstr s1), rp_sep (cstr s1)) = (true, true, true) /\
-  (depth_nonneg (cstr s2) 0, not_cancel_adjacent (cstr s2), rp_sep (cstr s2)) = (true, true, true) /\
+  let s3 := [110;111;116;32;40;110;111;116;32;110;111;116;32;97;41] in
+  let s4 := [110;111;116;32;40;41;32;110;111;116;32;98] in
+  len_ok (cstr s1) /\
   compile_c lookup_abc true s1 = IOk ([210; 60], [Some [97]; Some [98]; Some [99]], 3) /\
-  compile_c lookup_abc true s2 = IErr E_PAREN.
-Proof. vm_compute. repeat split. Qed.
+  compile_c lookup_abc true s2 = IErr E_PAREN /\
+  compile_c lookup_abc true s3 = IOk ([12], [Some [97]], 1) /\
+  compile_c lookup_abc true s4 = IErr E_PROC.
+Proof. split; [unfold len_ok; cbn; lia|]. vm_compute. repeat split. Qed.
